@@ -160,6 +160,7 @@ func c20run(r *kernel.Run, seed uint64) {
 			} else {
 				_, _ = mgc.MessageStore().AddMessage(ctx, []byte(fmt.Sprintf("msg-%d", i)))
 			}
+			s.wait()
 		}
 		groups = append(groups, mgc)
 	}
